@@ -51,9 +51,12 @@ inductive Op
   deriving DecidableEq, Repr, Inhabited
 
 /-- `ok`: poll returned ≥ 0 and wrote `revents`; `eintr`: -1/EINTR, nothing written;
-    `stuck`: an infinite wait with nothing ready — a signal handler calls `events_interrupt`
-    and poll fails with EINTR -/
-inductive PollOutcome | ok | eintr | stuck
+    `intr`: a signal arrives while poll is being executed — whatever its timeout, whatever is about
+    to become ready or to expire — its handler calls `events_interrupt`, and poll fails with EINTR
+    (nothing written; the request is pending when poll returns);
+    `stuck`: the same for an infinite wait with nothing ready, which nothing else would ever end
+    (the environment's default answer there) -/
+inductive PollOutcome | ok | eintr | stuck | intr
   deriving DecidableEq, Repr, Inhabited
 
 structure PollEntry where
@@ -180,12 +183,12 @@ structure M where
   stop : Option Int := none        -- dispatching has to stop; the call must return this value
   deriving Repr
 
-def INT_MAX : Int := 2147483647
-
-/-- `events_network_select`'s conversion of the remaining time (µs) to poll's millisecond timeout:
-    rounded up, saturating -/
-def ceilMs (us : Nat) : Int :=
-  if us / 1000000 ≥ 2147483 then INT_MAX else ((us + 999) / 1000 : Nat)
+/-- the property's "rounded up to a millisecond": the least whole number of milliseconds that is not
+    shorter than `us` microseconds.  This is arithmetic, not a description of the code: there is no
+    upper limit here.  An implementation whose timeout type cannot hold the value (poll takes an `int`)
+    has to wait for less and look again — the monitor allows any shorter wait ("no longer than") —
+    and must not round a long wait *up* to its type's maximum (finding F12, `notes/F12-fix.md`). -/
+def ceilMs (us : Nat) : Int := ((us + 999) / 1000 : Nat)
 
 def minDeadline : List Tm → Option Nat
   | [] => none
@@ -208,6 +211,10 @@ def nextImm : List Imm → Option Imm
     | none => some i
     | some j => if j.prio < i.prio then some j else some i
 
+/-- what the property says about one `poll` call: with something runnable (a pending immediate, an
+    expired timer) it must not block (timeout 0); with a timer registered it must not block
+    indefinitely, nor longer than until the earliest deadline rounded up to a millisecond — for every
+    deadline, however far away.  A shorter wait is always allowed. -/
 def checkPoll (m : M) (timeout : Int) : Except String Unit := do
   if timeout < -1 then throw s!"poll timeout {timeout}"
   if timeout ≠ 0 && runnable m then
@@ -218,6 +225,17 @@ def checkPoll (m : M) (timeout : Int) : Except String Unit := do
       if timeout = -1 then throw "poll blocks indefinitely although a timer is registered"
       if timeout > ceilMs (d - m.clock) then
         throw s!"poll timeout {timeout} ms is later than the earliest timer deadline ({d - m.clock} us away)"
+
+/-- a signal handler calls `events_interrupt` while `poll` is being executed (outcomes `intr`, `stuck`),
+    `adv` µs after it was entered.  No callback is running.  If the loop was waiting (`timeout ≠ 0`) the
+    request stops dispatching at once: the call must return 0, and neither a callback nor another poll
+    may follow (`stop := some 0`) — also when at that very moment a descriptor has become ready or a
+    timer expires.  A non-blocking poll (`timeout = 0`) is the look the loop takes between two callbacks;
+    a request that falls into it counts as one made between two callbacks (like one made by the program
+    before the call): the pass may still run the one event it comes across, then dispatching stops
+    (`cbEnd` with `intr` set), and the call returns 0. -/
+def pollIntr (m : M) (timeout : Int) (adv : Nat) : M :=
+  { m with clock := m.clock + adv, intr := true, stop := if timeout ≠ 0 then some 0 else m.stop }
 
 def step (m : M) : Ev → Except String M
   | .op (.regImm id p) .ok => pure { dropId m id with imms := (dropId m id).imms ++ [⟨id, p⟩] }
@@ -255,7 +273,8 @@ def step (m : M) : Ev → Except String M
           let m' := { m with nets, clock := m.clock + adv, polled := true }
           pure { m' with mustFire := m.mustFire || (timeout ≠ 0 && (nets.any (·.ready) || expired m')) }
       | .eintr => pure { m with clock := m.clock + adv }
-      | .stuck => pure { m with clock := m.clock + adv, intr := true }
+      | .stuck => pure (pollIntr m timeout adv)
+      | .intr => pure (pollIntr m timeout adv)
   | .cb id => do
       if m.stop.isSome then throw s!"callback {id} run after dispatching had to stop (non-zero status or interrupt request)"
       let m' := { dropId m id with fired := m.fired + 1, mustFire := false }
